@@ -376,7 +376,8 @@ void RecordViolation(const char* oracle, const char* text, bool fatal) {
 // ------------------------------------------------------------------------------------------------
 // Choice
 // ------------------------------------------------------------------------------------------------
-bool PorVisited(int cur, DKind kind);
+bool PorVisited(int cur, DKind kind, std::uint32_t sig, int n);
+std::uint64_t PorKey(int cur, DKind kind, std::uint32_t sig, int n);
 void PorGlobal(std::uint64_t what);
 void PorEvent(int f, int kind, const void* obj, bool writes, std::uint64_t extra);
 char CostOf(const struct Dec& d, int alt);
@@ -406,6 +407,10 @@ int Choose(DKind kind, int n, int timer_alt, std::uint32_t sig) {
   const int por_cur = (kind == kPreempt || kind == kSpur || kind == kRand || kind == kWake) && por_cur_ptr != nullptr
                         ? static_cast<int>(por_cur_ptr->GetId() - g.base_id)
                         : -1;
+  if (g.tracing && gPor.on) {
+    std::printf("  -- decision %u kind=%s n=%d cur=%d state=%016llx%s\n", g.pos, kDKindName[kind], n, por_cur,
+                static_cast<unsigned long long>(PorKey(por_cur, kind, sig, n)), gPor.ok ? "" : " (fingerprint invalid)");
+  }
   if (g.pos < *g.path_len) {
     Dec& d = g.path[g.pos];
     if (d.timer_alt == -2) {
@@ -416,6 +421,10 @@ int Choose(DKind kind, int n, int timer_alt, std::uint32_t sig) {
       ++g.pos;
       PorAccount(d, por_cur);
       return 0;
+    }
+    if (g.tracing && d.n == 0) {
+      d.kind = kind;  // hand-written replay: [0,0,<choice>,-1,0] takes the kind and menu as they come
+      d.n = static_cast<std::uint8_t>(n);
     }
     if (d.kind != kind || d.n != n || (d.sig != sig && d.sig != 0)) {
       Machinery("divergence at decision %u: recorded kind=%s n=%d sig=%08x, now kind=%s n=%d sig=%08x cell=%s", g.pos,
@@ -430,7 +439,7 @@ int Choose(DKind kind, int n, int timer_alt, std::uint32_t sig) {
     PorAccount(d, por_cur);
     return d.chosen;
   }
-  if (!gPor.pruned && PorVisited(por_cur, kind)) {
+  if (!gPor.pruned && PorVisited(por_cur, kind, sig, n)) {
     gPor.pruned = true;
   }
   if (g.pos >= kMaxDepth - 1) {
@@ -558,6 +567,25 @@ std::uint32_t Sig(int cur, std::uint32_t nev, int kind, yf::FiberBase** menu, in
   return h == 0 ? 1 : h;
 }
 
+// The sleepers in deadline order (slot by slot; which fibers share a slot; emptied slots), without the
+// absolute times: part of the state an execution's events do not determine, because two independent
+// fibers that start timed waits get their deadlines in the order in which they happened to run.
+std::uint32_t SleepSig() {
+  std::uint32_t h = 0x51ee9;
+  if (g.sched == nullptr) {
+    return h;
+  }
+  for (auto& slot : g.sched->_sleep_list) {
+    h = (h ^ 0xfffe) * 16777619u;
+    yf::FiberBase* in_slot[kMaxFibers];
+    const int n = Collect(&slot.second, true, in_slot, kMaxFibers);
+    for (int i = 0; i < n; ++i) {
+      h = (h ^ static_cast<std::uint32_t>(RelId(in_slot[i]) + 1)) * 16777619u;
+    }
+  }
+  return h;
+}
+
 int ObjIndex(const void* obj) {
   if (obj == nullptr) {
     return -1;
@@ -653,12 +681,23 @@ void PorEvent(int f, int kind, const void* obj, bool writes, std::uint64_t extra
     h = Mix64(h + v.c[i] + static_cast<std::uint64_t>(i) * 0x9e3779b97f4a7c15ULL);
   }
   gPor.fp += h;
+  if (g.tracing) {
+    std::printf("     . event-hash %016llx f%d kind=%d name=%016llx extra=%llu clock=", static_cast<unsigned long long>(h), f, kind,
+                static_cast<unsigned long long>(name), static_cast<unsigned long long>(extra));
+    for (int i = 0; i < 6; ++i) {
+      std::printf("%u ", v.c[i]);
+    }
+    std::printf("\n");
+  }
 }
 
 // an occurrence every later event is ordered after (timer, explorer-clock reading, ...)
 void PorGlobal(std::uint64_t what) {
   if (gPor.on && gPor.ok) {
     gPor.fp = Mix64(gPor.fp ^ what);
+    if (g.tracing) {
+      std::printf("     . fold %016llx\n", static_cast<unsigned long long>(what));
+    }
   }
 }
 
@@ -702,18 +741,36 @@ void PorReset() {
   gPor.usedP = gPor.usedS = gPor.usedT = 0;
 }
 
+// The key of a state at a decision: the fingerprint of what was executed, who decides, and the menu
+// (sig hashes the ids of the fibers that can run, n also counts a timer alternative).  The menu is
+// part of the key because a fiber's exit and a fiber blocking are not events: two prefixes with the
+// same events can differ in whether a fiber has already left / is already parked.
+std::uint64_t PorKey(int cur, DKind kind, std::uint32_t sig, int n) {
+  return Mix64(gPor.fp ^ (static_cast<std::uint64_t>(cur + 2) << 8) ^ static_cast<std::uint64_t>(kind) ^
+               (static_cast<std::uint64_t>(sig) << 24) ^ (static_cast<std::uint64_t>(n) << 16) ^
+               (static_cast<std::uint64_t>(g.bounds.T > 0 ? SleepSig() : 0) << 3));
+}
+
 // Called when a NEW decision node is about to be created.  Returns true if the state was already
 // visited with at least as much budget left: the subtree below is then not explored again.
-bool PorVisited(int cur, DKind kind) {
+bool PorVisited(int cur, DKind kind, std::uint32_t sig, int n) {
   if (!gPor.on || !gPor.prune || !gPor.ok || gPorTable == nullptr || g.warmup) {
     return false;
   }
-  const std::uint64_t key = Mix64(gPor.fp ^ (static_cast<std::uint64_t>(cur + 2) << 8) ^ static_cast<std::uint64_t>(kind));
+  const std::uint64_t key = PorKey(cur, kind, sig, n);
   auto clamp = [](int v) {
     return static_cast<std::uint8_t>(v < 0 ? 0 : v > 250 ? 250 : v);
   };
   const PorEntry now{clamp(g.bounds.P - gPor.usedP), clamp(g.bounds.S - gPor.usedS), clamp(g.bounds.T - gPor.usedT)};
   auto it = gPorTable->find(key);
+  static const char* dbg = std::getenv("VX_DUMP_CACHE");
+  if (dbg != nullptr) {
+    if (FILE* df = std::fopen(dbg, "a")) {
+      std::fprintf(df, "%s %016llx pos=%u cur=%d kind=%d budget=%d,%d,%d\n", it == gPorTable->end() ? "new" : "old",
+                   static_cast<unsigned long long>(key), g.pos, cur, static_cast<int>(kind), now.p, now.s, now.t);
+      std::fclose(df);
+    }
+  }
   if (it == gPorTable->end()) {
     if (gPorTable->size() < 40000000) {
       gPorTable->emplace(key, now);
@@ -877,7 +934,9 @@ bool HFireTimer() {
     return false;
   }
   // free switch with both runnable fibers and sleepers: may the timer land first?
-  const int c = Choose(kTimerFree, 2, -1, Sig(-3, static_cast<std::uint32_t>(g.nevents), kTimerFree, nullptr, 0));
+  yf::FiberBase* runnable[kMaxFibers];
+  const int n_runnable = Collect(&g.sched->_queue, true, runnable, kMaxFibers);
+  const int c = Choose(kTimerFree, 2, -1, Sig(-3, static_cast<std::uint32_t>(g.nevents), kTimerFree, runnable, n_runnable));
   if (c == 1) {
     ++g.timers_fired;
     if (g.tracing) {
@@ -1177,6 +1236,17 @@ void Fold(std::uint64_t value) {
   PorGlobal(Mix64(value ^ (static_cast<std::uint64_t>(Self() + 2) << 56)));
 }
 
+// A harness variable shared between fibers: an access is an event on that object under the usual
+// dependence (two accesses conflict iff same object and one writes), not a decision point.
+void SharedAccess(const void* obj, bool writes, std::uint64_t value) {
+  const int self = Self();
+  if (self < 0) {
+    return;
+  }
+  InEngine guard;
+  PorEvent(self, writes ? 42 : 41, obj, writes, value);
+}
+
 int TimersFired() {
   return g.timers_fired;
 }
@@ -1433,6 +1503,21 @@ void SetupCellBounds(const Cell& cell, const Bounds& cmdline) {
       } else if (g.final_set.insert(gPor.fp).second) {
         s->distinct_finals = g.final_set.size();
         s->finals_xor ^= Mix64(gPor.fp);
+        if (const char* dump = std::getenv("VX_DUMP_FINALS")) {
+          if (FILE* df = std::fopen(dump, "a")) {
+            std::string pj;
+            for (std::uint32_t i = 0; i < s->path_len; ++i) {
+              char pb[64];
+              std::snprintf(pb, sizeof(pb), "%s[%u,%u,%u,%d,%u]", i ? "," : "", s->path[i].kind, s->path[i].n, s->path[i].chosen,
+                            s->path[i].timer_alt, s->path[i].sig);
+              pj += pb;
+            }
+            std::fprintf(df, "%016llx %s | {\"cell\":\"%s\",\"P\":%d,\"S\":%d,\"T\":%d,\"path\":[%s]}\n",
+                         static_cast<unsigned long long>(gPor.fp), PathToString(s->path, s->path_len).c_str(), g.cell_id.c_str(),
+                         g.bounds.P, g.bounds.S, g.bounds.T, pj.c_str());
+            std::fclose(df);
+          }
+        }
       }
     }
     if (g.outcome_set.insert(oh).second) {
@@ -1912,6 +1997,8 @@ int Replay(const Options& opt) {
   g.path = buf;
   g.path_len = &len;
   InstallHooks();
+  gPor.on = !b.all_points;
+  gPor.prune = false;
   std::printf("replay harness=%s cell=%s bounds P=%d S=%d T=%d decisions=%u\n", vxh::kName, cell_id.c_str(), b.P, b.S,
               b.T, len);
   std::fflush(stdout);
